@@ -53,7 +53,9 @@ MODULES = {"qartod": ["gross_range_test", "spike_test", "rate_of_change_test", "
 UNKNOWN_MODULES = ["nosuchmodule", "qartod2", "Qartod", "glider", "qartod.extra", "qc"]
 UNKNOWN_TESTS = ["no_such_test", "spike_tests", "SpikeTest", "gross_range", "range_test", "flatline_test", "speed"]
 
-num = st.one_of(st.integers(-50, 50), st.integers(-400, 400).map(lambda k: k / 8))
+# (numbers that JSON / YAML writers spell in exponent notation belong to the alphabet: 1e-05, 1e+16, ...)
+num = st.one_of(st.integers(-50, 50), st.integers(-400, 400).map(lambda k: k / 8), st.integers(-400, 400).map(lambda k: k / 8),
+                st.sampled_from([1e-05, 3e-07, -2.5e-06, 1e16, -1e17, 1.5e300, 6.02e23, 1e-300, 123456789012345678]))
 ISO = ["2020-01-01T00:00:00", "2020-03-01T12:30:00", "2019-12-31T23:59:59", "2021-06-15T00:00:00Z", "2020-01-01"]
 
 
@@ -117,7 +119,8 @@ def kwargs_for(draw, test):
 
 stream_id = st.one_of(
     st.sampled_from(["temp", "salinity", "var_1", "1var", "sea.water.temp", "sea water temp", "température", "v", "_x",
-                     "a.b", "a_b", "123", "T-90", "qartod", "time"]),
+                     "a.b", "a_b", "123", "T-90", "qartod", "time", "no", "on", "yes", "off", "y", "n", "NO", "0x1f", "1e3", "1_000",
+                     "12:30:00", "2020-01-01"]),
     st.text(alphabet="abcxyz_019. -é", min_size=1, max_size=8).filter(lambda s: s.strip() == s and s not in RESERVED))
 RESERVED = {"streams", "contexts", "window", "region", "attrs"}
 
